@@ -12,6 +12,7 @@ from rv.props import c03
 
 ANCHORS = ("geometry/operations.py",)
 THOROUGH_SHARDS = 12
+AMBIENT_TESTS = ["tests/test_geometry", "tests/test_evaluation"]
 MAXF = float(geoms.MAXF)
 _installed = False
 _orig = None
